@@ -42,11 +42,11 @@ ASSUMPTIONS = [
     "Excl: SRC_URI strings where '->' is not between two plain tokens (accept/reject not judged)",
     "Excl: USE-dependency atoms that expand to conditionals (transitive_use_atoms) are not in the leaf alphabet",
     "'rejected' = DepSet.parse raises an Exception (all observed rejections were DepsetParseError)",
-    "leaf alphabet is 3 leaves per style, conditional flags x (positive) and y (negated); thorough adds !x",
+    "leaf alphabet is 3 leaves per style (2 for the deeper reduced styles dep2/requse2), conditional flags x (positive) and y (negated); thorough adds !x",
 ]
 BOUNDS = {
-    "quick": "nodes <= 5 (dep, requse, restrict, srcuri), <= 4 (license); ~72k valid strings, every flag subset x every leaf subset, all single-token corruptions",
-    "thorough": "nodes <= 6 (dep, requse, restrict, srcuri) with extra conditional !x?, <= 5 (license); all single-token corruptions",
+    "quick": "valid strings: nodes <= 5 (dep, requse, restrict, srcuri), <= 4 (license), <= 6 for the reduced alphabets dep2 (2 leaves, || ( ) x?) and requse2 (2 leaves, ^^ ?? x?) -- ~115k strings x every flag subset x every leaf subset; single-token corruptions of every string with <= 4 nodes (~390k)",
+    "thorough": "valid strings: nodes <= 6 (dep, requse, restrict, srcuri; extra conditional !x?), <= 5 (license), <= 7 (dep2, requse2); corruptions of every string with <= 5 nodes (<= 6 for restrict/srcuri)",
 }
 
 MAXKIDS = 3
@@ -60,7 +60,7 @@ STYLES = {
     "requse": {"leaves": ("a", "!a", "b"), "ops": ("||", "()", "^^", "??")},
     # reduced alphabets that reach one node deeper (nested groups next to a conditional); parsed like their base style
     "dep2": {"leaves": ("a/b", "!a/d"), "ops": ("||", "()"), "conds": ("x?",), "base": "dep"},
-    "requse2": {"leaves": ("a", "b"), "ops": ("||", "^^", "??"), "conds": ("x?",), "base": "requse"},
+    "requse2": {"leaves": ("a", "b"), "ops": ("^^", "??"), "conds": ("x?",), "base": "requse"},
 }
 
 
@@ -587,7 +587,7 @@ def _seq_count(style, tier, comp):
 
 def tasks(tier):
     out = []
-    target = 400 if tier == "quick" else 3000
+    target = 1200 if tier == "quick" else 4000
     for style, nmax in SIZES[tier].items():
         out.append((tier, style, (), 0, 0))  # the empty string
         for n in range(1, nmax + 1):
@@ -666,6 +666,8 @@ def _stringify_choice_ops(case):
             return False
     elif "renders to" not in case.get("msg", ""):  # a corrupted string that is itself valid and parsed
         return False
+    if "exactly-one-of (" not in case.get("msg", "") and "at-most-one-of (" not in case.get("msg", ""):
+        return False  # the rendering must show the defect's spelling
     if scan("requse", case["s"]) != "valid":
         return False
 
